@@ -192,9 +192,30 @@ def worker(shard, nshards, tier, seed, mode="shard"):
     return acc
 
 
+def reuse_worker(shard, nshards, tier, seed):
+    """Short-lived schemas (common.short_lived): each is built, generated from (default script and
+    every single deviation) and dropped before the next one of the same shape is built."""
+    from ..common import short_lived
+    acc = Acc()
+    rng = e2.Scripted(seed)
+    b = dict(BOUNDS[tier], D=1, full_cap=80, max_execs=300)
+    with e2.installed(rng):
+        def ex(t, s):
+            _, found, n, _ = examine(rng, t, s, b)
+            acc.count("short_lived_executions", n)
+            for rawkind, (script, detail) in found.items():
+                acc.violation(f"C01|{rawkind}|{show(t)}",
+                              {"term": src(t), "term_show": show(t), "minimal": show(t),
+                               "script": [list(x) for x in script], "detail": detail,
+                               "kind": rawkind, "tier": tier, "seed": seed})
+        short_lived([t for t in terms_for(tier) if eligible(t)], shard, nshards, acc, ex)
+    return acc
+
+
 def run(tier, seed):
     terms_for(tier)
     acc = parallel(worker, tier, seed, nshards=128, warm_pass=True)
+    acc.merge(parallel_fresh(reuse_worker, tier, seed, nshards=16))
     one = parallel_fresh(worker, tier, seed, nshards=1, extra=("one-process",))
     one.n = type(one.n)({"one_process:" + k: c for k, c in one.n.items() if k != "max_choice_points"})
     one.outcomes = set()
@@ -213,6 +234,9 @@ def run(tier, seed):
         "bounds": dict(b, tier=tier, max_choice_points_seen=acc.n["max_choice_points"]),
         "schemas_again_after_second_generator_instances": acc.n["schemas_after_second_instances"],
         "one_process_pass": {"pattern_schemas_forwards_and_backwards_twice": acc.n["one_process:schemas"]},
+        "short_lived_pass": {"builds": acc.n["short_lived_builds"], "executions": acc.n["short_lived_executions"],
+                             "address_reused_by_a_different_schema":
+                                 acc.n["address_reused_by_a_different_schema"]},
     }
     return acc, cov, ["RNG answers per draw: both ends, their neighbours, the middle, one seeded "
                       "interior point (choice over <= 4 items: every item)",
